@@ -21,13 +21,16 @@ for sid in ids:
         print(sid, "PATCH DOES NOT APPLY"); continue
     fired = {}
     try:
-        for c in checks:
-            p = subprocess.run([os.path.join(V, "check"), c], cwd=V, stdout=subprocess.PIPE, stderr=subprocess.STDOUT, text=True,
-                               env=dict(os.environ, HALO_NO_EVIDENCE="1"))
-            if p.returncode == 1:
-                fired[c] = [l.strip() for l in p.stdout.splitlines() if l.startswith("  rule ") or l.startswith("  at ")][:6]
-            elif p.returncode != 0:
-                fired[c] = ["exit %d: %s" % (p.returncode, p.stdout[-300:])]
+        code = "import json,sys; sys.path.insert(0,%r); from analysis import engine; print('@@'+json.dumps(engine.evaluate_dry(%r)))" % (V, checks)
+        p = subprocess.run([sys.executable, "-c", code], cwd=V, stdout=subprocess.PIPE, stderr=subprocess.STDOUT, text=True)
+        line = [l for l in p.stdout.splitlines() if l.startswith("@@")]
+        if not line:
+            fired = {"BUILD": [p.stdout[-400:]]}
+        else:
+            res = json.loads(line[0][2:])
+            for c, vs in res.items():
+                if vs:
+                    fired[c] = ["%s at %s: %s" % (v["instance"], v["at"], v["reason"][:160]) for v in vs[:4]]
     finally:
         subprocess.run("git -C /repo checkout -- .", shell=True)
     meta["detected_by"] = sorted(fired)
